@@ -696,3 +696,17 @@ def static_str(mf, alloc):
     res = found.pop() if len(found) == 1 else None
     cache[alloc] = res
     return res
+
+
+def static_slice_len(mf, alloc):
+    """length of a `static NAME: &[T]` referenced as `{allocN: &&[T]}`: allocN holds (pointer, length).  None when the dump does
+    not determine it uniquely."""
+    import re as _re
+    found = set()
+    lines = mf.lines
+    for i, l in enumerate(lines):
+        if l.startswith(alloc + " (static:") and "size: 16," in l and i + 1 < len(lines):
+            m = _re.search(r"(alloc\d+)<imm>[^0-9a-f]*((?:[0-9a-f]{2} ){8})", lines[i + 1])
+            if m:
+                found.add(int.from_bytes(bytes(int(x, 16) for x in m.group(2).split()), "little"))
+    return found.pop() if len(found) == 1 else None
